@@ -15,7 +15,7 @@ from typing import Any
 from harness import core
 from harness.core import Ctx, Inconclusive
 
-QUICK_BUDGET_S = 50.0  # workload cap per check, quick tier (never a verdict)
+QUICK_BUDGET_S = 300.0  # safety cap only: the quick workload is bounded by case counts, so a loaded machine slows it down but does not starve the monitors (never a verdict)
 THOROUGH_BUDGET_S = 600.0
 THOROUGH_SHARDS = 16
 
